@@ -153,7 +153,7 @@ def ref_op(n, op):
                 if valattr is None:
                     return n
                 b = ('m', P + 'map', ((('s', P + 'str', valattr), b),))
-            b = _mset(b, keyattr, ('s', P + 'str', a[2]))
+            b = _mset(b, keyattr, a)      # the key node itself: its type and text
             items.append(b)
         return _mset(n, attr, ('q', P + 'seq', tuple(items)))
     if k == 'map_to_index':
